@@ -8,5 +8,5 @@ CONSTANTS MaxLen = 3
           TruncOnOpen = TRUE
           Mut = "none"
 VIEW NoHist
-INVARIANTS TypeOK RecoverOK RecoverContig MemView TreeSound HeaderBitProtocol KeyHygiene
+INVARIANTS JournalInEnvelope TypeOK RecoverOK RecoverContig MemView TreeSound HeaderBitProtocol KeyHygiene
 CHECK_DEADLOCK FALSE
